@@ -17,6 +17,8 @@ def check(ctx):
     repo = ctx.repo
     P = repo.cls(POLY, "Polygon")
     D = repo.cls(DEV, "Device")
+    ctx.rule("R18.10", "Device keeps two coordinate scales apart: its own mesh is in units of the coherence length, polygons / probe points / `points` "
+                       "are in length units; `_create_dimensionless_mesh` is handed length-unit points, and the two are never added", 1)
     ctx.rule("R18.9", "coordinate arrays stored on devices and polygons are rebound to new arrays by the transformations, never written element by element "
                       "(an elementwise store casts to the dtype the user happened to supply)", 1)
     ctx.rule("R18.8", "memoised geometry (cached properties, lazy attributes) is invalidated by every method that rebinds what it was computed from", 2)
@@ -30,6 +32,7 @@ def check(ctx):
     set_operations(ctx, P)
 
     inplace_discipline(ctx, P, D)
+    coordinate_scales(ctx, D)
     # R18.3
     fc = P.methods["copy"]
     pc = [n for n in ast.walk(fc.node) if isinstance(n, ast.Call) and norm(n.func) == "Polygon"]
@@ -444,3 +447,89 @@ def device_copy_shares(D, fd):
         if not probes and pp is not None:
             missing.add("probe_points")
     return sorted(missing, key=["layer", "film", "holes", "terminals", "probe_points"].index), shown
+
+
+def coordinate_scales(ctx, D):
+    """R18.10: a two-point type system over the methods of Device.  XI: coordinates of the device's own mesh (`self.mesh.sites`, `.x`,
+    `.y`, `.edge_mesh.centers`, through aliases of `self.mesh`); L: `self.points`, polygon `.points`, probe points.  `v * coherence
+    length`: XI -> L, `v / coherence length`: L -> XI; sums keep the scale and must not mix the two.  `_create_dimensionless_mesh`
+    divides by the coherence length itself: what it is handed must not already be XI."""
+    from ..dataflow import assignments
+    problems, sinks = [], 0
+    for name, f in D.methods.items():
+        fn = f.node
+        asg = assignments(fn)
+
+        def is_dev(e):
+            return isinstance(e, ast.Name) and e.id in ("self", "device")
+
+        def devmesh(e, depth=0):
+            """is `e` the device's own mesh (self.mesh, device.mesh, or a local bound to it)"""
+            if isinstance(e, ast.Attribute) and e.attr == "mesh" and is_dev(e.value):
+                return True
+            if isinstance(e, ast.Name) and depth < 3:
+                defs = [v for _, v in asg.get(e.id, []) if v is not None]
+                return bool(defs) and all(devmesh(v, depth + 1) for v in defs)
+            return False
+
+        def is_xi_factor(e, depth=0):
+            if "coherence_length" in norm(e):
+                return True
+            if isinstance(e, ast.Name) and depth < 3:
+                defs = [v for _, v in asg.get(e.id, []) if v is not None]
+                return bool(defs) and all(is_xi_factor(v, depth + 1) for v in defs)
+            return False
+
+        def scale(e, depth=0):
+            if depth > 6:
+                return None
+            if isinstance(e, ast.Attribute):
+                if e.attr in ("sites", "x", "y") and devmesh(e.value):
+                    return "XI"
+                if e.attr == "centers" and isinstance(e.value, ast.Attribute) and e.value.attr == "edge_mesh" and devmesh(e.value.value):
+                    return "XI"
+                if e.attr in ("points", "probe_points") and (is_dev(e.value) or isinstance(e.value, (ast.Name, ast.Attribute))) and not devmesh(e.value):
+                    return "L" if e.attr == "probe_points" or not (isinstance(e.value, ast.Name) and e.value.id == "mesh") else None
+                return None
+            if isinstance(e, ast.Name):
+                defs = [v for _, v in asg.get(e.id, []) if v is not None]
+                kinds = {scale(v, depth + 1) for v in defs}
+                return kinds.pop() if len(kinds) == 1 else None
+            if isinstance(e, ast.Subscript):
+                return scale(e.value, depth + 1)
+            if isinstance(e, ast.BinOp):
+                l, r = scale(e.left, depth + 1), scale(e.right, depth + 1)
+                if isinstance(e.op, ast.Mult) and (is_xi_factor(e.left) or is_xi_factor(e.right)):
+                    base = r if is_xi_factor(e.left) else l
+                    return "L" if base == "XI" else base
+                if isinstance(e.op, ast.Div) and is_xi_factor(e.right):
+                    return "XI" if l == "L" else l
+                if isinstance(e.op, (ast.Add, ast.Sub)):
+                    if l and r and l != r:
+                        problems.append((f, e, f"`{norm(e)[:60]}` combines mesh coordinates in units of the coherence length with coordinates in length units"))
+                    return l or r
+                return None
+            if isinstance(e, ast.Call) and norm(e.func).split(".")[-1] in ("array", "asarray", "copy", "atleast_2d") and e.args:
+                return scale(e.args[0], depth + 1)
+            return None
+        for c in own_nodes(fn):
+            if isinstance(c, ast.Call) and isinstance(c.func, ast.Attribute) and c.func.attr == "_create_dimensionless_mesh" and c.args:
+                sinks += 1
+                if scale(c.args[0]) == "XI":
+                    problems.append((f, c, f"`{norm(c)[:70]}` is handed coordinates of the device's own (dimensionless) mesh; it divides by the coherence length itself"))
+            elif isinstance(c, ast.BinOp):
+                scale(c)
+    if sinks < 2:
+        raise AnalysisError(f"only {sinks} calls of Device._create_dimensionless_mesh found")
+    seen = set()
+    for f, node, msg in problems:
+        if (f.fq, msg) in seen:
+            continue
+        seen.add((f.fq, msg))
+        ctx.ob("R18.10", f"coordinate scale error: {msg[:80]}", False, where=f.fq, construct=f"coordinate scales in {f.qual}: {msg[:50]}", loc=loc(f, node),
+               message=f"{f.qual}: {msg}",
+               consequence="translating a meshed device in place (translate(inplace=True), `with device.translation(...)`) with a coherence length other than 1 "
+                           "shrinks / shifts the mesh by the wrong amount: the mesh sites leave the film")
+    ctx.ob("R18.10", f"{sinks} mesh (re)builds of Device are handed length-unit points; no sum mixes the two scales", not problems,
+           detail={"sinks": sinks}, where=D.fq, construct="coordinate scales of Device (summary)", message="see the coordinate scale errors above",
+           consequence="see above")
